@@ -243,7 +243,7 @@ def has_quantifier(t):
     return False
 
 
-def candidate_models(world, ob, timeout_ms, prober, limit=10):
+def candidate_models(world, ob, timeout_ms, prober, limit=24):
     """several diverse candidate inputs on the path of the obligation (quantified hypotheses dropped)"""
     out = []
     try:
@@ -278,6 +278,23 @@ def candidate_models(world, ob, timeout_ms, prober, limit=10):
 
 def candidate_model(world, ob, timeout_ms, prober=None):
     if prober is not None:
+        # first: the FULL query restricted to tiny shapes (sequence lengths <= 3, small integers): with such a small domain
+        # model-based instantiation usually terminates with a genuine counter-model of the encoding
+        try:
+            shape = prober.shape_constraints(True)
+            s = z3.Solver()
+            s.set("timeout", min(timeout_ms, 6000))
+            for a in world.global_axioms():
+                s.add(a)
+            for p in ob.pc:
+                s.add(p)
+            for c in shape:
+                s.add(c)
+            s.add(z3.Not(ob.goal))
+            if s.check() == z3.sat:
+                return s.model()
+        except Exception:
+            pass
         for small in (True, False):
             try:
                 shape = prober.shape_constraints(small)
